@@ -93,11 +93,17 @@ class Context:
         self.analysed[label] = value
 
     def floor(self, label, got, minimum):
-        """instance-count floor confirmed by hand on the pinned tree; missing it is an ANALYSIS-ERROR"""
+        """instance-count floor confirmed by hand on the pinned tree; evaluated after the check has run: missing it
+        without any finding that explains it is an ANALYSIS-ERROR (a rule matching too few sites passes vacuously)"""
         self.floors.append((label, got, minimum))
-        if got < minimum and not self.findings:     # a finding already explains why less could be analysed
-            raise AnalysisError('instance floor missed: %s = %d < %d (a rule matching too few sites would pass '
-                                'vacuously)' % (label, got, minimum))
+
+    def check_floors(self):
+        if self.findings:
+            return
+        for label, got, minimum in self.floors:
+            if got < minimum:
+                raise AnalysisError('instance floor missed: %s = %d < %d (a rule matching too few sites would pass '
+                                    'vacuously)' % (label, got, minimum))
 
     def sample(self, s):
         if len(self.samples) < 40:
